@@ -14,7 +14,7 @@
 (*        zero    every frame of this callback is exactly 0                 *)
 (*        mono    "up" | "down" | "flat" | "none": shape of the gain        *)
 (*        g0,g1   gain class of the first/last frame: 0 silent, 1 between,  *)
-(*                2 exactly unity                                           *)
+(*                2 exactly unity, 3 above unity                            *)
 (*        pos     handle.position() in frames, nsounds the track's count    *)
 (*                                                                          *)
 (* Slack, as in the statement: a fade-driven step completes when its tween  *)
@@ -40,7 +40,7 @@ PInit(finite, len) ==
   [ poss |-> {AS("Playing", NoT, NoT, 0)},
     k |-> 0,              \* callbacks seen
     pend |-> <<>>,        \* commands since the last callback
-    pos |-> -1, frozenRun |-> 0,
+    pos |-> -1, frozenRun |-> 0, lastState |-> "",
     stoppedSeen |-> FALSE,
     finite |-> finite, len |-> len, adv |-> 0,   \* natural end: frames of audio available / callbacks spent advancing
     held |-> FALSE,       \* the sound has been kept from advancing at some time (no deadline then)
@@ -114,6 +114,7 @@ FullyFrozen(m, e) == e.state \in Frozen /\ \A a \in After(m, e) : a.st \in Froze
 Check(m, e) ==
   CASE e.a = "cb" ->
          IF e.panicked THEN "no_panic"
+         ELSE IF e.g0 = 3 \/ e.g1 = 3 THEN "gain_between_silence_and_unity"       \* (seen before the renderer's clamp)
          ELSE IF m.stoppedSeen /\ e.state # "Stopped" THEN "stopped_is_final"
          ELSE IF Succ(m, e) = {} THEN
               (IF \E a \in After(m, e) : ~m.starved /\ ~GainOK(a, e) /\ Explain(a, e, m.k + 1, m) # {} THEN "fade_monotone"
@@ -122,6 +123,10 @@ Check(m, e) ==
                ELSE "lifecycle")
          ELSE IF FullyFrozen(m, e) /\ ~e.zero THEN "silent_when_not_advancing"
          ELSE IF FullyFrozen(m, e) /\ m.frozenRun >= 1 /\ m.pos # -1 /\ e.pos # m.pos THEN "position_frozen"
+         \* a sound that reports Playing plays: its position moves on from one callback to the next (every session here
+         \* plays at rate 1; a starved stream has nothing to play)
+         ELSE IF ~m.starved /\ m.lastState = "Playing" /\ e.state = "Playing" /\ m.pos # -1 /\ e.pos = m.pos /\ m.pend = <<>>
+              THEN "advances_while_playing"
          ELSE IF m.stoppedSeen /\ e.nsounds # 0 THEN "unloaded_at_next_callback"
          ELSE IF m.finite /\ ~m.held /\ e.state # "Stopped" /\ m.adv * e.n > m.len + 4 * e.n THEN "finite_sound_reaches_stopped"
          ELSE ""
@@ -132,7 +137,7 @@ Check(m, e) ==
 Upd(m, e) ==
   CASE e.a = "cmd" -> [m EXCEPT !.pend = Append(@, e)]
     [] e.a = "cb" ->
-         [m EXCEPT !.poss = Succ(m, e), !.k = @ + 1, !.pend = <<>>, !.pos = e.pos,
+         [m EXCEPT !.poss = Succ(m, e), !.k = @ + 1, !.pend = <<>>, !.pos = e.pos, !.lastState = e.state,
                    !.frozenRun = IF FullyFrozen(m, e) THEN @ + 1 ELSE 0,
                    !.stoppedSeen = (e.state = "Stopped"),
                    !.adv = IF FullyFrozen(m, e) THEN @ ELSE @ + 1,
